@@ -3,7 +3,7 @@
     rebench/persistence.py (_ReBenchDB) and rebench/rebenchdb.py by harness/c17.py. *)
 From Coq Require Import List ZArith Bool Arith Permutation.
 Import ListNotations.
-From RV Require Import Model.DbCache Proofs.DbCacheP.
+From RV Require Import Model.DbCache Proofs.DbCacheP Proofs.DbCacheV2P.
 
 (** For every server behaviour and every sequence of events (data points added, send_data() at
     any times, close()): the data points handed to the persistence are, as a multiset, exactly
@@ -58,6 +58,42 @@ Print Assumptions C17_request_policy.
 Theorem C17_payload_v1 : forall data, decode_v1 (encode_v1 data) = data.
 Proof. exact v1_roundtrip. Qed.
 Print Assumptions C17_payload_v1.
+
+(** API v2 (one entry per invocation, one column per criterion index, values by iteration with
+    None padding): whenever the conversion returns a request, the receiver reads back, run by run,
+    exactly the measurements (invocation, iteration, criterion, value) of the data points - as a
+    multiset, the layout groups them by criterion - for every layout of sparse and differing
+    criteria sets, provided the data is what the recorder delivers: one data point per
+    (invocation, iteration) with iterations >= 1 increasing per invocation, criteria distinct
+    inside a data point.  (The format cannot represent anything else: DbCacheV2P.v2_dup_criterion_misplaced.) *)
+Theorem C17_payload_v2 : forall data p,
+  wf_data data -> encode_v2 data = Some p ->
+  Forall2 (fun rd re => fst re = fst rd /\ Permutation (snd re) (meas_of (snd rd))) data (decode_v2 p).
+Proof. exact v2_roundtrip. Qed.
+Print Assumptions C17_payload_v2.
+
+(** ... and the conversion does return a request (no IndexError in add_measurements_api_v20)
+    whenever the data points of one invocation of a run are adjacent, as recorder and loader
+    deliver them. *)
+Theorem C17_payload_v2_total :
+  forall data, (forall rd, In rd data -> contig (snd rd)) -> encode_v2 data <> None.
+Proof. exact v2_total. Qed.
+Print Assumptions C17_payload_v2_total.
+
+(** Both, behind the executable guards the correspondence evaluates on every generated data set. *)
+Theorem C17_payload_v2_guarded : forall data,
+  wf_datab data = true -> contig_datab data = true ->
+  exists p, encode_v2 data = Some p /\
+    Forall2 (fun rd re => fst re = fst rd /\ Permutation (snd re) (meas_of (snd rd))) data (decode_v2 p).
+Proof. exact v2_guarded. Qed.
+Print Assumptions C17_payload_v2_guarded.
+
+(** Non-vacuity of the two v2 theorems: sparse criteria over two invocations. *)
+Example C17_v2_example :
+  wf_ds ex_ds /\ contig ex_ds /\
+  option_map decode_v2 (encode_v2 [(0, ex_ds)]) =
+    Some [(0, [(1, 1, 7, 10%Z); (1, 1, 8, 11%Z); (1, 3, 9, 12%Z); (2, 2, 8, 13%Z); (2, 2, 5, 14%Z)])].
+Proof. exact v2_example. Qed.
 
 (** Non-vacuity: two runs, a refused transmission in between, close succeeds. *)
 Example C17_example :
